@@ -165,4 +165,4 @@ def run(pid, tier, seed):
         for k, what in replay(pid, rc["case"]):
             camp.fail(k, what, rc["case"])
     camp.merge(core.run_shards(shard, [dict(seed=core.seed_of(seed, s, 19), n=n) for s in range(shards)]))
-    return core.finish(pid, tier, seed, camp, RULE, t0, assumptions=["only top-level insertion points, as the property states"])
+    return core.finish(pid, tier, seed, camp, RULE, t0, replay_fn=replay, assumptions=["only top-level insertion points, as the property states"])
